@@ -58,7 +58,7 @@ def check(ctx, case):
         k = op[0]
         touched = set()
         if k == "bin":
-            touched = {op[2], op[3]}
+            touched = {op[2]} if op[1] == "-" else {op[2], op[3]}     # a - b = a & ~b: only a is re-split
         if k in ("move", "scale", "rot"):
             x = op[1]
             for v in range(len(before)):
